@@ -37,7 +37,7 @@ claim("C06", "exploration",
 claim("C20", "exploration",
   "The C06 histories with a recording listener factory (all functions or a tape-chosen subset): the plan model predicts the exact event stream - before(params, call chain per call engine), after(results), abort - including unwinding through re-entrant host calls; checked by a bracketing automaton plus exact comparison, on both engines against the same model, with results/state equal to the listener-free semantics. Deep chains (31-60 frames) are judged against recorded known-finding signatures. Sampling, not proof.",
   "Trusted: plan model; i32 values are compared in their low 32 bits; the length of the slices handed to the listener is compared with the signature; the module argument of listener callbacks is not compared; tail calls carry no listeners and the recursion functions only counting ones (class overflow). Known findings recognised by signature: compiler abort cap 30, compiler stack iterator cap 29, compiler delivers no Abort on stack exhaustion. Class termination reuses the C07 scenarios under a bracket-checking listener.",
-  "deterministic simulation: scripted fault histories with recording listeners vs predicted event stream (exactly-once bracketing, nesting, values, stack chains)",
+  "deterministic simulation: scripted fault histories with recording listeners vs predicted event stream (exactly-once bracketing, nesting, values, stack chains); forced interleaving of two calls on one instance from inside a listener (class concurrent-calls)",
   "DESIGN.md §5 C20")
 
 claim("C07", "exploration",
@@ -59,7 +59,7 @@ claim("C18", "exploration",
   "DESIGN.md §5 C18")
 
 claim("C13", "fault_enumeration",
-  "Per tape-generated module: determinism of the cache entry across fresh runtimes; then EVERY crash point of the add operation is enumerated on an in-memory disk (before each syscall, inside each write after k bytes) under two persistence models - process death and power loss (data durable only up to the last fsync, unsynced tail dropped or zero-filled, each directory operation persisted or lost) - and a restarted runtime must find nothing or a byte-identical entry under the final name, compile, and execute correctly; every truncation length and foreign-version entries must be reported or recompiled, never executed; read faults; two concurrent writers under a seeded baton scheduler; two runtimes sharing one warm cache object with a PCT change point among the engine's yield sites; entries of more than a megabyte (class large-entry). Crash points are exhaustive per module; the module population is sampled.",
+  "Per tape-generated module: determinism of the cache entry across fresh runtimes; then EVERY crash point of the add operation is enumerated on an in-memory disk (before each syscall, inside each write after k bytes) under two persistence models - process death and power loss (data durable only up to the last fsync, unsynced tail dropped or zero-filled, each directory operation persisted or lost) - and a restarted runtime must find nothing or a byte-identical entry under the final name, compile, and execute correctly; every truncation length and foreign-version entries must be reported or recompiled, never executed; read faults; two concurrent writers under a seeded baton scheduler; two runtimes sharing one warm cache object with a PCT change point among the engine's yield sites; entries of more than a megabyte (class large-entry); one of the compared processes is a position-independent build of the worker. Crash points are exhaustive per module; the module population is sampled.",
   "Trusted: the sim-disk persistence model (conservative POSIX, not a specific file system), the go/ast instrumenter that substitutes package os in internal/filecache/file_cache.go and cache.go of a scratch copy, the plan model.",
   "deterministic simulation: simulated disk (volatile/durable layers) with enumerated crash points, power-loss models, truncation sweep, read faults, transient write errors (ENOSPC/EIO once), baton-scheduled concurrent writers of the same or different modules",
   "DESIGN.md §5 C13")
@@ -71,7 +71,7 @@ claim("C10", "exploration",
   "DESIGN.md §5 C10")
 
 claim("C11", "exploration",
-  "Seeded simulation of 2-4 unlinked instances (same compiled plan and a second plan; one runtime or two runtimes sharing a compilation cache), each with its own stdout, mount and arguments; calls are tasks suspended at host calls so that an instance sits mid-call with native frames live while others mutate memory, globals, tables, dropped segments, descriptors and stdout; per instance the outcome sequence, stdout bytes, descriptor numbers, created files and final state must equal the same calls on a lone instance in a fresh runtime (wazero against wazero, same engine). Class one-config-value: every instance from ONE ModuleConfig value (default clocks and random source). Class emscripten-shared-env: instances sharing one Emscripten env host module whose invoke_* functions call back into the calling instance, against a per-instance model. Sampling of programs and interleavings.",
+  "Seeded simulation of 2-4 unlinked instances (same compiled plan and a second plan; one runtime or two runtimes sharing a compilation cache), each with its own stdout, mount and arguments; calls are tasks suspended at host calls so that an instance sits mid-call with native frames live while others mutate memory, globals, tables, dropped segments, descriptors and stdout; per instance the outcome sequence, stdout bytes, descriptor numbers, created files and final state must equal the same calls on a lone instance in a fresh runtime (wazero against wazero, same engine). Class one-config-value: every instance from ONE ModuleConfig value (default clocks and random source). Classes atomic-wait-notify (threads: a waiter in one instance, notifiers in its siblings) and shared-sock-config (experimental/sock: one socket configuration, several instantiations, a failing one first; the kernel's table of listening sockets is observed). Class emscripten-shared-env: instances sharing one Emscripten env host module whose invoke_* functions call back into the calling instance, against a per-instance model. Sampling of programs and interleavings.",
   "Trusted: the comparison harness; the host function's return value is a pure function of its arguments and the instance's own call count.",
   "deterministic simulation: tape-scheduled interleaving of suspended calls across instances vs lone-instance replay of the same call sequence",
   "DESIGN.md §5 C11")
